@@ -14,6 +14,8 @@ mod comp_rtte;
 mod comp_rx;
 mod comp_segs;
 mod comp_tx;
+mod comp_txconc;
+mod comp_rxconc;
 mod comp_pair;
 mod comp_vsock;
 mod comp_wire;
@@ -26,6 +28,8 @@ const DISPATCHERS: &[fn(&[&str]) -> Option<String>] = &[
     comp_rx::dispatch,
     comp_segs::dispatch,
     comp_tx::dispatch,
+    comp_txconc::dispatch,
+    comp_rxconc::dispatch,
     comp_cubic::dispatch,
     comp_wire::dispatch,
     comp_vsock::dispatch,
